@@ -119,4 +119,13 @@ PROPS["C12"] = dict(engines=["adf"], design="5/C12",
          "fresh pipeline and both pipelines receive the remaining batches (original first, so aliasing shows); the resumed outputs are validated against the specification.",
     note=_DFNOTE)
 
+PROPS["C09"] = dict(engines=["akafka"], design="5/C09",
+    technique="TLA+ spec KafkaBatched (broker, source incarnation, in-flight batches, crash enabled in every state; TLC exhaustive) + trace validation of the real FromKafkaBatched / get_message_batch against an in-memory confluent_kafka under crash/restart histories",
+    text="TLC checks Contiguous, StartsAtSeed, BelowHighWatermark, SizeLimit, CommitAfterProcess and AtLeastOnce (no unprocessed message behind the committed offset at any crash) "
+         "for all production histories, partition additions, completion orders (in order per partition) and a crash after every event, for earliest/latest x refresh_partitions x "
+         "max_batch_size; the necessity of the in-order proviso is demonstrated by a counter-example; the real source is driven against a fake client on the virtual loop and "
+         "every emitted range, completion, commit call and position vector is validated.",
+    note="Trusted: TLC; harness/fake_ck.py (in-memory implementation of the client calls the source makes); a consumer that holds the batch's references until the driver "
+         "lets it finish (consumers reached only through synchronous hand-offs fall under known finding F06-emit, not C09).")
+
 # violations found by an engine shared between properties are attributed by v['property']
